@@ -192,6 +192,7 @@ def correspondence(res, r, n_wild, n_dialect, corpus_types):
   n_wf = 0
   n_known = 0
   n_outside = 0
+  mismatches = []
   hist = {}
   for k, (name, _) in enumerate(bodies):
     ok, out = outs[name]
@@ -215,11 +216,7 @@ def correspondence(res, r, n_wild, n_dialect, corpus_types):
         res.sample({"T": L.to_text(T), "model=impl (before Optimize)": c["pre"][0] + " " + L.to_text(c["pre"][1]),
                     "downstream stub": c["post"][0] + " " + L.to_text(c["post"][1])})
       if not e:
-        n_mism += 1
-        if n_mism <= 3:
-          res.obligation("correspondence:" + c["origin"], False,
-                         "T=%s: real convert->output gives %s %s, the model differs" %
-                         (L.to_text(T), c["pre"][0], L.to_text(c["pre"][1])))
+        mismatches.append(c)
       # direct oracle on the implementation: a dialect type must come back as the same type
       if c["dialect"] and not w and not contains_bare_type(T):
         n_outside += 1
@@ -242,6 +239,29 @@ def correspondence(res, r, n_wild, n_dialect, corpus_types):
       # the theorem's hypothesis is monitored: whenever wf_top holds the model itself must round-trip
       if w and not ms:
         res.obligation("theorem-instance:" + c["origin"], False, "wf_top T but canon(out(conv T)) <> canon T: " + L.to_text(T))
+  # Within one analysis convert.py memoises conversions on pytd nodes, and two unions with the same members in a
+  # different order are equal as nodes: a type converted after such a twin can inherit the twin's member order.
+  # The model describes one conversion in a fresh context, so a batch mismatch is re-run alone before it counts.
+  n_reordered = 0
+  for c in mismatches[:12]:
+    T = c["loaded"][1]
+    try:
+      l1, p1, _, _ = L.round_trip(["x0: " + L.to_text(c["gen"])], os.path.join(WORK, "corr1"))
+      body = HEADER + "Eval vm_compute in deq (out_top A (conv_var A %s)) %s.\n" % (L.to_coq(l1[0][1]), L.def_to_coq(p1[0]))
+      ok1, out1 = common.run_cases_v("c06_corr_single", body)
+      same = ok1 and common.parse_coq_eval(out1)[0].strip() == "true"
+    except Exception:  # pylint: disable=broad-except
+      same, p1 = False, [c["pre"]]
+    if same:
+      n_reordered += 1
+      continue
+    n_mism += 1
+    if n_mism <= 3:
+      res.obligation("correspondence:" + c["origin"], False,
+                     "T=%s: real convert->output gives %s %s, the model differs" %
+                     (L.to_text(T), p1[0][0], L.to_text(p1[0][1])))
+  n_mism += max(0, len(mismatches) - 12)
+  res.extra["corr_batch_order_effects_resolved_alone"] = n_reordered
   res.obligation("correspondence:model-vs-convert/output", n_mism == 0 and not crashes,
                  "%d of %d types disagree; %d crashes" % (n_mism, len(usable), len(crashes)))
   res.obligation("correspondence:translatable", len(skipped) - len(crashes) <= max(2, len(cases) // 50),
@@ -368,6 +388,8 @@ def e2e(res, r, n_programs, n_workers, budget_s, corpus_programs):
   kinds = {}
   n_expect = 0
   reported = 0
+  n_inside = n_infdecl = n_tainted = 0
+  known_hits = {}
   for jid, rr in sorted(results.items()):
     st = rr.get("status")
     stats[st] = stats.get(st, 0) + 1
@@ -379,29 +401,43 @@ def e2e(res, r, n_programs, n_workers, budget_s, corpus_programs):
       res.obligation("e2e-harness:" + jid, False, rr.get("what", "") + "\n" + rr.get("trace", ""))
       continue
     src = by_id[jid]["src"]
-    seen_known = False
+    n_inside += rr.get("n_probes_inside", 0)
+    n_infdecl += rr.get("inferred_differs_from_declared", 0)
+    n_tainted += rr.get("tainted", 0)
+    seen_known = set()
     for iss in rr.get("issues", []):
-      if iss["kind"] == KNOWN_BARE_TYPE and not seen_known:
-        seen_known = True
-        report(res, KNOWN_BARE_TYPE, iss["what"], {"kind": "program", "src": src, "transport": iss["transport"]})
+      if iss["kind"] in E.KNOWN_KINDS and iss["kind"] not in seen_known:
+        seen_known.add(iss["kind"])
+        known_hits[iss["kind"]] = known_hits.get(iss["kind"], 0) + 1
+        report(res, iss["kind"], iss["what"],
+               {"kind": "program", "src": src, "A_source": rr.get("src_a"), "B_source": rr.get("src_b"),
+                "transport": iss["transport"]})
     if st == "violation":
       reported += 1
       kind = rr.get("kind")
       fp = "%s:%s" % (kind, rr.get("transport"))
       if fp in _REPORTED or len(_REPORTED) >= 3:
         continue
-      small = src
+      small, small_res = src, rr
       try:
         small = shrink_program(src, kind, (rr.get("transport"),) if kind != "transports-differ" else E.TRANSPORTS, 20)
+        if small != src:
+          r2 = E.check_pair(small, os.path.join(WORK, "shrink"))
+          if r2.get("status") == "violation" or r2.get("issues"):
+            small_res = r2
+          else:
+            small = src
       except Exception:  # pylint: disable=broad-except
-        small = src
-      report(res, fp, "[%s] %s" % (rr.get("transport"), rr.get("what")),
-                    {"kind": "program", "src": small, "original_src": src, "transport": rr.get("transport"),
-                     "detail": {k: rr.get(k) for k in ("what", "name", "source", "stub_0", "stub_1", "trace") if k in rr}})
+        small, small_res = src, rr
+      report(res, fp, "[%s] %s" % (small_res.get("transport"), small_res.get("what") or rr.get("what")),
+             {"kind": "program", "src": small, "A_source": small_res.get("src_a"), "B_source": small_res.get("src_b"),
+              "transport": small_res.get("transport") or rr.get("transport"), "original_src": src,
+              "detail": {k: small_res.get(k) for k in ("what", "name", "source", "stub_0", "stub_1", "trace") if k in small_res}})
   if len(res.samples) < 6:
     for jid, rr in sorted(results.items()):
       if rr.get("status") == "ok" and rr.get("n_expect", 0) >= 8:
-        res.sample({"upstream stub (excerpt)": rr.get("stub_a", "")[:600], "downstream (excerpt)": rr.get("src_b", "")[:400],
+        res.sample({"upstream source with probes (excerpt)": rr.get("src_a", "")[-500:],
+                    "upstream stub (excerpt)": rr.get("stub_a", "")[:500], "downstream (excerpt)": rr.get("src_b", "")[-400:],
                     "names compared": rr.get("n_expect")})
         break
   done = len(results)
@@ -413,6 +449,10 @@ def e2e(res, r, n_programs, n_workers, budget_s, corpus_programs):
   res.extra["e2e_names_compared_per_transport"] = n_expect
   res.extra["e2e_expectation_kinds"] = kinds
   res.extra["e2e_transports"] = list(E.TRANSPORTS)
+  res.extra["e2e_probes_inside_values"] = n_inside
+  res.extra["e2e_names_not_compared_oracle_built_a_bad_call"] = n_tainted
+  res.extra["e2e_B_equals_declared_but_A_inferred_other"] = n_infdecl
+  res.extra["e2e_known_finding_programs"] = known_hits
   res.extra["e2e_wall_s"] = round(wall, 1)
 
 
@@ -440,7 +480,12 @@ def run(res):
               "(what pytype emits); non-trivial = size>1, distinct by shape to depth 2.  (b) generated upstream programs "
               "(module variables of container/union/optional/tuple/callable/class-valued types, annotated and inferred "
               "functions, classes with class/instance attributes, methods, inheritance; typing imports only), a downstream "
-              "module derived from the emitted stub, three transports; a program counts when >=3 names are compared.")
+              "module derived from the emitted stub, three transports; a program counts when >=3 names are compared.  Generic classes "
+              "with 1-3 type parameters whose TypeVar names are drawn in random (mostly non-alphabetical) order, bounded and "
+              "constrained TypeVars, a subclass fixing a parameter, generic functions returning instances.  B probes INSIDE every "
+              "value that is an instance of one of A's classes (attributes incl. inherited, properties, methods with <=1 argument); "
+              "the same probe expressions are appended to A, and B's type for each probe must be the type A's own analysis infers "
+              "for it (or the type declared in A's stub with the type parameters substituted).")
   res.assumptions = [
       "the type-expression model covers constants and aliases; signatures, classes, type parameters, module resolution and "
       "LateType resolution are exercised only by the end-to-end oracle (b) (partial)",
@@ -500,7 +545,7 @@ def replay(res, path):
     return 1 if bad or any(e[0] in ("import-error", "pyi-error") for e in errs) else 0
   src = rep["src"]
   r = E.check_pair(src, os.path.join(WORK, "replay"))
-  print("--- upstream source\n" + src)
+  print("--- upstream source (with the probe expressions appended)\n" + str(r.get("src_a") or src))
   print("--- upstream stub\n" + str(r.get("stub_a")))
   print("--- downstream source\n" + str(r.get("src_b")))
   print("--- verdict:", r.get("status"), r.get("kind"), r.get("transport"), r.get("what"))
